@@ -13,7 +13,7 @@ demo=json.load(open(os.path.join(d,'meta.json'))).get('demo','')
 if os.path.exists(os.path.join(d,'demo.diff')) and 'cargo test' in demo:
     print(demo[demo.index('cargo test'):].split('&&')[0].split('   ')[0].strip())
 elif os.path.exists(os.path.join(d,'demo.sh')):
-    print('bash ./demo.sh')
+    print('bash SEED/1/demo.sh')
 else:
     print(demo)
 PY
@@ -23,12 +23,12 @@ git apply "$D/patch.diff" || { echo "CONFIRM $D: patch does not apply"; exit 1; 
 suite=$(cargo test --offline 2>&1 | grep -E "^test result" | head -1)
 echo "suite with patch: $suite"
 [ -f "$D/demo.diff" ] && { git apply "$D/demo.diff" || { echo "demo.diff does not apply"; exit 1; }; }
-[ -f "$D/demo.sh" ] && cp "$D/demo.sh" "$W/demo.sh" && chmod +x "$W/demo.sh" && cargo build --offline >/dev/null 2>&1
+[ -f "$D/demo.sh" ] && mkdir -p "$W/SEED/1" && cp "$D"/* "$W/SEED/1/" && cargo build --offline >/dev/null 2>&1
 ( eval "$demo_cmd" ) > /tmp/seedwork/confirm_with.log 2>&1; with=$?
 git apply -R "$D/patch.diff" || { echo "cannot revert patch"; exit 1; }
 [ -f "$D/demo.sh" ] && cargo build --offline >/dev/null 2>&1
 ( eval "$demo_cmd" ) > /tmp/seedwork/confirm_without.log 2>&1; without=$?
-git checkout -q -- . ; git clean -fdq src; rm -f demo.sh
+git checkout -q -- . ; git clean -fdq src; rm -rf demo.sh SEED
 ok=no
 if echo "$suite" | grep -q "329 passed; 0 failed" && [ $with -ne 0 ] && [ $without -eq 0 ]; then ok=yes; fi
 echo "CONFIRM $(basename "$(dirname "$D")")/$(basename "$D"): suite=[$suite] demo_with_patch_exit=$with demo_without_patch_exit=$without confirmed=$ok"
